@@ -12,6 +12,10 @@ ops:  t+ <ns>                                   => now=<ns>
                                                    (over=d: the DEFAULT systemOverloadChecker runs, verdict = cpu ≥ threshold)
                                                    ot=<ns> dr=<0/1> cpuok=<0/1> nan=<0/1> (p names the promise if admitted)
       pass <p> | fail <p>                       => flying=<n> avg=<n/d> | nopromise (p was never admitted) | nop (disabled)
+      getmany k=<key> n=<goroutines>            => distinct=<d> again=<0/1>   n concurrent ShedderGroup.GetShedder(key): one shedder
+      sample prev=<n> n=<k>                     => seq=<v1,…,vj> | seq=-      the REAL sampler goroutine of core/stat/usage.go: the
+                                                   reading is set to prev, the next values it stores are recorded (wall-clock
+                                                   ticker; fewer than k values when the time is up)
 `over` is what the scripted systemOverloadChecker returns, `cpu` what stat.CpuUsage() is set to for
 overloadFactor (cpuok=0: the background CPU sampler overwrote it during the call — the factor is then unknown
 and the implementation's verdict is followed).  With group=1 the shedder of key k is created by
@@ -126,6 +130,37 @@ def runSection (r : Report) (s : Section) : Report := Id.run do
                         insts := st.insts.map fun i => { i with h := i.h.observe (.advance d) } }
         r := r.addCover "advance"
         if kvNat l.obs "now" 0 ≠ st.now then r := r.mismatch s.idx l.idx s!"now={st.now}" (joinSp l.obs)
+    | ["sample", pv, nv] =>
+      match (kv? [pv] "prev").bind String.toInt?, (kv? [nv] "n").bind String.toNat? with
+      | some prev, some _ =>
+        let seqTok := kvStr l.obs "seq"
+        if seqTok = "-" then r := r.addCover "sampler-no-tick-observed"
+        else if seqTok = "" then r := r.mismatch s.idx l.idx "seq=…" (joinSp l.obs)
+        else
+          let mut p := prev
+          for tok in seqTok.splitOn "," do
+            match tok.toInt? with
+            | none => r := r.mismatch s.idx l.idx "seq=<integers>" (joinSp l.obs)
+            | some v =>
+              r := r.addCover (if p ≥ 900 then "sampler-tick-from-hot" else if p ≤ 50 then "sampler-tick-from-idle" else "sampler-tick")
+              -- monitor (CPU reading path of clauses 1 and 2): reading' = int64(0.95·reading + 0.05·sample), sample in 0…1000
+              if !samplerStepOk p v then
+                r := r.violation s.idx l.idx s!"the CPU sampler moved the reading from {p} to {v}, outside [{cpuEma p 0}, {cpuEma p 1000}]: not 0.95 x previous + 0.05 x sample for any sample in 0..1000 (the reading Allow compares with the threshold is no longer the smoothed CPU load)"
+              p := v
+      | _, _ => r := r.mismatch s.idx l.idx "bad-op" (joinSp l.op)
+    | ["getmany", kt, nt] =>
+      match (kv? [kt] "k").bind String.toNat?, (kv? [nt] "n").bind String.toNat? with
+      | some key, some n =>
+        if !group then r := r.mismatch s.idx l.idx "bad-op (no group)" (joinSp l.op) else
+        let created := (st.insts.find? (·.key = key)).isNone
+        if created then st := { st with insts := setInst st.insts (mkInst st.enabled opts key st.now) }
+        r := r.addCover (if created then (if st.enabled then "group-concurrent-first-use" else "group-concurrent-first-use-disabled") else "group-concurrent-existing-key")
+        let d := kvNat l.obs "distinct" 0
+        if d ≠ 1 ∨ kvNat l.obs "again" 0 ≠ 1 then
+          r := r.mismatch s.idx l.idx "distinct=1 again=1" (joinSp l.obs)
+          -- monitor (clause 3 through the group): one shedder per key, or in-flight requests are split over several counters
+          r := r.violation s.idx l.idx s!"{n} concurrent GetShedder calls for one key returned {d} different shedders (again={kvNat l.obs "again" 0}): requests admitted through one are not in flight for the others"
+      | _, _ => r := r.mismatch s.idx l.idx "bad-op" (joinSp l.op)
     | ["disable"] =>
       st := { st with enabled := false }
       r := r.addCover "disable-mid-section"
@@ -146,7 +181,11 @@ def runSection (r : Report) (s : Section) : Report := Id.run do
         let over := if dflt then defaultChecker cpu inst.sh.cpuThreshold else ov = 1
         if dflt then r := r.addCover (if over then (if cpu = inst.sh.cpuThreshold then "default-checker-at-threshold" else "default-checker-over") else
                                       (if cpu + 1 = inst.sh.cpuThreshold then "default-checker-just-below" else "default-checker-calm"))
-        if !implShed && !implOk then
+        if l.obs.head? = some "nilpromise" then
+          -- monitor (clause 3): an admitted request is in flight until its promise is resolved — there must be a promise
+          r := r.mismatch s.idx l.idx "ok|overloaded" (joinSp l.obs)
+          r := r.violation s.idx l.idx "Allow admitted the request (no error) but returned no promise: the request can never be resolved (the call sites call Pass / Fail on it unconditionally)"
+        else if !implShed && !implOk then
           r := r.mismatch s.idx l.idx "ok|overloaded" (joinSp l.obs)
         else if inst.nop then
           -- nopShedder: always admits, its promise does nothing
